@@ -15,51 +15,33 @@ Inductive observed :=
 | OErr (ids : list string)      (* failed; identifiers of the error-severity diagnostics, in order *)
 | OOther.                       (* crash, hang, anything else *)
 
-(* ---- the str.upper() oracle -------------------------------------------------------------- *)
-(* umap: Python's upper() for the non-ASCII characters of the case whose upper() is not themselves *)
-Fixpoint assoc (c : N) (m : list (N * list N)) : option (list N) :=
-  match m with
-  | [] => None
-  | (k, v) :: rest => if N.eqb k c then Some v else assoc c rest
-  end.
-
-Definition upper_of (umap : list (N * list N)) (c : N) : list N :=
-  if (c <? 128)%N then ascii_upper c
-  else match assoc c umap with Some u => u | None => [c] end.
-
-(* Spec side: the alphabet character a source character stands for, if any.
-   ASCII: the Spec's own case folding; other characters: the oracle. *)
-Definition spec_char (umap : list (N * list N)) (c : N) : option N :=
-  if (c <? 128)%N then (if accepted_char c then Some (fold_case c) else None)
-  else match (match assoc c umap with Some u => u | None => [c] end) with
-       | [u] => if in_alphabet u then Some u else None
-       | _ => None
-       end.
+(* Spec side: the alphabet character a source character stands for, if any (any code point) *)
+Definition spec_char (c : N) : option N := if accepted_char c then Some (fold_case c) else None.
 
 Definition string_eqb (a b : string) : bool := if string_dec a b then true else false.
 Definition mem_id (id : string) (ids : list string) : bool := existsb (string_eqb id) ids.
 
 (* ---- '.rad50' on explicit chunks ---------------------------------------------------------- *)
-Definition corr_dir (umap : list (N * list N)) (cs : list chunk) (o : observed) : bool :=
-  match rad50 rad50_table (upper_of umap) cs, o with
+Definition corr_dir (cs : list chunk) (o : observed) : bool :=
+  match rad50 rad50_table cs, o with
   | Ok bs, OOk bs' => list_eqb Z.eqb bs bs'
   | Err ids, OErr ids' => list_eqb string_eqb ids ids'
   | _, _ => false
   end.
 
-Fixpoint spec_text (umap : list (N * list N)) (cs : list chunk) : option (list N) * bool * bool :=
+Fixpoint spec_text (cs : list chunk) : option (list N) * bool * bool :=
   (* (text if everything is acceptable, some bad character, some bad code) *)
   match cs with
   | [] => (Some [], false, false)
   | Str s :: rest =>
-      let '(t, bc, bn) := spec_text umap rest in
-      let here := map (spec_char umap) s in
+      let '(t, bc, bn) := spec_text rest in
+      let here := map spec_char s in
       let bad := existsb (fun x => match x with None => true | Some _ => false end) here in
       (match t with
        | Some t' => if bad then None else Some (flat_map (fun x => match x with Some u => [u] | None => [] end) here ++ t')
        | None => None end, bad || bc, bn)
   | Code n :: rest =>
-      let '(t, bc, bn) := spec_text umap rest in
+      let '(t, bc, bn) := spec_text rest in
       match char_of_code n with
       | Some u => (match t with Some t' => Some (u :: t') | None => None end, bc, bn)
       | None => (None, bc, true)
@@ -69,8 +51,8 @@ Fixpoint spec_text (umap : list (N * list N)) (cs : list chunk) : option (list N
 Definition even_len {A} (l : list A) : bool := Nat.even (length l).
 Definition bytes_ok (bs : list Z) : bool := forallb byte_ok bs.
 
-Definition prop_dir (umap : list (N * list N)) (cs : list chunk) (o : observed) : bool :=
-  let '(t, bc, bn) := spec_text umap cs in
+Definition prop_dir (cs : list chunk) (o : observed) : bool :=
+  let '(t, bc, bn) := spec_text cs in
   match t, o with
   | Some text, OOk bs =>
       even_len bs && bytes_ok bs &&
@@ -92,7 +74,7 @@ Fixpoint prefix_ids (a b : list string) : bool :=
   end.
 
 Definition corr_lit (text : list N) (o : observed) : bool :=
-  match literal rad50_table ascii_upper text, o with
+  match literal rad50_table text, o with
   | Ok w, OOk bs => list_eqb Z.eqb (le16 w) bs
   | Err ids, OErr ids' => prefix_ids ids ids'     (* what follows a bad literal may add more errors *)
   | _, _ => false
@@ -118,7 +100,7 @@ Definition prop_lit (text : list N) (o : observed) : bool :=
    the Number token or the reported errors, and how many characters it consumed after "^R" *)
 Definition corr_littok (text : list N) (consumed : nat) (o : observed) : bool :=
   Nat.eqb (literal_consumed rad50_table text) consumed &&
-  match literal rad50_table ascii_upper text, o with
+  match literal rad50_table text, o with
   | Ok w, OOk bs => list_eqb Z.eqb (le16 w) bs
   | Err ids, OErr ids' => list_eqb string_eqb ids ids'
   | _, _ => false
@@ -141,15 +123,14 @@ Definition prop_littok (text : list N) (consumed : nat) (o : observed) : bool :=
 
 Inductive case :=
 | CLitTok (text : list N) (consumed : nat) (o : observed)
-| CDir (umap : list (N * list N)) (cs : list chunk) (o : observed)
+| CDir (cs : list chunk) (o : observed)
 | CLit (text : list N) (o : observed)
 (* exhaustive: first code a, letters lower-cased?, the 1600 observed words for (b, c) = (0,0) (0,1) ... (39,39)
    of '.rad50 /abc/' *)
 | CDirTriples (a : Z) (lower : bool) (ws : list Z)
 (* exhaustive: the observed values of '.word ^Rabc' for the (b, c) of [lit_pairs], trailing spaces dropped *)
 | CLitTriples (a : Z) (lower : bool) (ws : list Z)
-(* all code points lo..hi as '.rad50 "c"': each was refused with exactly one 'invalid-character'
-   and Python's upper() of each is the character itself *)
+(* all code points lo..hi as '.rad50 "c"': each was refused with exactly one 'invalid-character' *)
 | CDirRefusedRange (lo hi : N)
 (* all code points lo..hi as '.word ^Rc': each was refused, first error 'invalid-string' *)
 | CLitRefusedRange (lo hi : N).
@@ -205,7 +186,7 @@ Definition nrange_incl (lo hi : N) : list N := nrange_from lo (N.to_nat (hi + 1 
 
 Definition judge (c : case) : N :=
   match c with
-  | CDir umap cs o => code_of (corr_dir umap cs o) (prop_dir umap cs o)
+  | CDir cs o => code_of (corr_dir cs o) (prop_dir cs o)
   | CLit text o => code_of (corr_lit text o) (prop_lit text o)
   | CLitTok text n o => code_of (corr_littok text n o) (prop_littok text n o)
   | CDirTriples a lower ws =>
@@ -217,9 +198,9 @@ Definition judge (c : case) : N :=
   | CDirRefusedRange lo hi =>
       let cs := nrange_incl lo hi in
       sweep_code
-        (map (fun c => match rad50 rad50_table (fun x => [x]) [Str [c]] with
+        (map (fun c => match rad50 rad50_table [Str [c]] with
                        | Err ["invalid-character"%string] => true | _ => false end) cs)
-        (map (fun c => negb (in_alphabet c)) cs)
+        (map (fun c => negb (accepted_char c)) cs)
   | CLitRefusedRange lo hi =>
       let cs := nrange_incl lo hi in
       sweep_code
